@@ -49,8 +49,16 @@ func escape(b *bytes.Buffer, r rune, force bool) {
 			b.WriteString(s)
 			break
 		}
+		if r > 0xFFFF {
+			// no fixed-width escape reaches past the BMP in every dialect;
+			// the rune itself is not a metacharacter
+			b.WriteRune(r)
+			break
+		}
 		b.WriteString(`\u`)
-		b.WriteString(strconv.FormatInt(int64(r), 16))
+		s := strconv.FormatInt(int64(r), 16)
+		b.WriteString("0000"[len(s):])
+		b.WriteString(s)
 	}
 }
 
